@@ -270,6 +270,18 @@ tls_init(const struct daneinfo *tlsa_info, int tlsa_cnt)
 		return -i;
 	}
 
+	/* Everything that arrived together with the reply to STARTTLS was not
+	 * protected by TLS, but it would be taken as reply to the commands sent
+	 * from now on. A server has no reason to send anything before it sees
+	 * the EHLO, so do not go on with someone who does. */
+	if (data_pending(myssl) != 0) {
+		const char *msg[] = { "unexpected data behind the STARTTLS reply of ", rhost, NULL };
+
+		log_writen(LOG_ERR, msg);
+		ssl_free(myssl);
+		return EDONE;
+	}
+
 	ssl = myssl;
 	if (*servercert || tlsa_usable > 0) {
 		long r = SSL_get_verify_result(myssl);
